@@ -33,7 +33,7 @@ PROTECTED = ("content-length", "content-type")
 
 @st.composite
 def header_dicts(draw):
-    names = draw(st.lists(st.one_of(st.sampled_from(BASE_NAMES), st.sampled_from(BASE_NAMES[:2]), st.text(TCHAR, min_size=1, max_size=5).map(str.lower)),
+    names = draw(st.lists(st.one_of(st.sampled_from(BASE_NAMES), st.sampled_from(BASE_NAMES[:2]), st.sampled_from(BASE_NAMES[:2]), st.sampled_from(BASE_NAMES[:1]), st.text(TCHAR, min_size=1, max_size=5).map(str.lower)),
                           max_size=4, unique=True))
     d = {}
     for n in names:
@@ -51,7 +51,7 @@ def op_trees(depth=0):
         return st.lists(call, max_size=2)
     block = st.tuples(st.just("block"), header_dicts(), st.sampled_from(["normal", "normal", "exception"]),
                       st.deferred(lambda: op_trees(depth + 1)))
-    return st.lists(st.one_of(call, block), max_size=3)
+    return st.lists(st.one_of(call, block, block), max_size=3)
 
 
 @st.composite
@@ -59,6 +59,27 @@ def cases(draw):
     return {"ctor": draw(st.one_of(st.none(), header_dicts())), "ops": draw(op_trees()),
             "user_agent": draw(st.one_of(st.none(), st.text(string.ascii_letters + "/. ", min_size=1, max_size=8).map(str.strip).filter(bool))),
             "content_type": draw(st.sampled_from(["application/json-rpc", "application/json"]))}
+
+
+@st.composite
+def chain_cases(draw):
+    """A nested chain of 1-4 blocks over two colliding names, calls at every level"""
+    k = draw(st.integers(1, 4))
+    pool = ["x-a", "X-A", "x-A", "X-a", "x-b", "X-B", "User-Agent", "user-agent", "CONTENT-type", "content-LENGTH", "Host"]
+
+    def small_dict():
+        names = draw(st.lists(st.sampled_from(pool), min_size=1, max_size=3, unique_by=lambda n: n.lower()))
+        return {n: draw(st.one_of(st.integers(0, 9), st.sampled_from(["v1", "v2", "a b", True, None, 1.5]))) for n in names}
+
+    ops = [("call",)] if draw(st.booleans()) else []
+    for _ in range(k):
+        how = draw(st.sampled_from(["normal", "normal", "exception"]))
+        inner = ops
+        ops = [("block", small_dict(), how, inner + [(draw(st.sampled_from(["call", "notify", "batch"])),)])]
+        if draw(st.booleans()):
+            ops.append(("call",))
+    return {"ctor": small_dict() if draw(st.booleans()) else None, "ops": ops,
+            "user_agent": draw(st.sampled_from([None, "agent/1.0"])), "content_type": "application/json-rpc"}
 
 
 class Boom(Exception):
@@ -167,8 +188,12 @@ def oracle(case):
 
 
 SUBS = [
+    Sub("chains", oracle, strategy=lambda tier: chain_cases(),
+        budget={"quick": 6000, "thorough": 100000}, shards={"quick": 8, "thorough": 16},
+        time_cap={"quick": 100, "thorough": 1500},
+        what="nested chains of 1-4 blocks over colliding header names"),
     Sub("headers", oracle, strategy=lambda tier: cases(),
-        budget={"quick": 6000, "thorough": 100000}, shards={"quick": 12, "thorough": 16},
+        budget={"quick": 4000, "thorough": 100000}, shards={"quick": 8, "thorough": 16},
         time_cap={"quick": 100, "thorough": 1500},
         what="header stacks and block trees against a model stack, on a recording connection"),
 ]
